@@ -393,6 +393,6 @@ def check(F, R, tier):
 LEVEL_TEXT = ("Decides structural clauses over all storage flavours: wrappers forward to the same-named operation, refusals are never reached after "
               "a write (capacity errors change nothing), element drop coverage without double drop, every raw queue slot access uses the ring index, "
               "the slot map's free-list operations keep both link directions and the head consistent. Necessary conditions; agreement with the reference "
-              "containers over operation sequences is not decided.")
+              "containers over operation sequences is not decided. Strings: plain slice indices are guarded by `< capacity/len`, suffix/prefix searches run from the matching end.")
 LEVEL_NOTE = "Trusted: rustc MIR; the forwarder detection idiom and the `_impl`/`__internal_` naming conventions. Small structural part of the property."
 TECHNIQUE = "static analysis: forwarder cross-check over the resolved call graph, no-refusal-after-write path rules, drop-coverage rules"
